@@ -54,7 +54,7 @@ GRAPHS = [D, G1, G2, GB]
 def distributions(quick):
     """every distribution of <= 3 triples over {default, IRI-named, IRI-named', bnode-named}, incl. the same triple in several graphs and a blank node shared across graphs"""
     out = []
-    trip = T[:3] if quick else T[:4]
+    trip = T[:4]
     for assign in itertools.product(range(len(GRAPHS) + 1), repeat=len(trip)):
         qs = [t + [GRAPHS[a]] for t, a in zip(trip, assign) if a < len(GRAPHS)]
         if qs:
